@@ -31,11 +31,11 @@ ASSUMPTIONS = [
     'rectify_beats: the model interpolates in exact rationals; the implementation (np.interp in binary64) is compared '
     'with tolerance 1e-9*max(1,|t|); generated times differ by >= 2^-40 s so the float test start == end agrees '
     'with the exact one',
-    'extract_subsequence(seq, 0, d) inside repeat is modelled locally for one window (notes, tempo/time-signature/key/'
-    'chord-symbol state, beats, section annotations, total_time); its control-change (pedal) pass is not modelled '
-    'and not compared',
+    'extract_subsequence(seq, 0, d) inside repeat: the local one-window model is proved equal to the C02 model of '
+    '_extract_subsequences on [0, d] (Proofs/TimeOpsExtract.v); the pedal pass is C02\'s model reused',
     'protobuf MergeFrom/CopyFrom/deepcopy and the opaque remainder of the message (id, filename, metadata, ...) are '
-    'trusted; the remainder is compared by hash for shift/stretch/adjust/rectify and ignored for concat/repeat',
+    'trusted; the remainder is compared by hash for shift/stretch/adjust/rectify, field by field (merge rule) for '
+    'concat, and ignored for repeat',
 ]
 TOL = 1e-9
 
@@ -66,6 +66,80 @@ def _canon(w, drop_rest=False, drop_ccs=False, keep_order=False):
 
 def _exc(e):
     return ['EXC', type(e).__name__]
+
+
+# ---- the rest of the message (opened up for concatenation): strings are 'x<k>' for k > 0, '' for 0
+def _str(k):
+    return 'x%d' % k if k else ''
+
+
+def _unstr(x):
+    return int(x[1:]) if x else 0
+
+
+def _proto(desc):
+    """nsio.to_proto plus the explicit remainder description desc['xmeta'] (scalars, composers, genres,
+    instrument_infos, part_infos, section_groups)."""
+    ns = nsio.to_proto(desc)
+    m = desc.get('xmeta')
+    if m:
+        sc = m['scalars']
+        ns.id, ns.filename, ns.reference_number, ns.collection_name = _str(sc[0]), _str(sc[1]), sc[2], _str(sc[3])
+        ns.source_info.source_type, ns.source_info.encoding_type, ns.source_info.parser = sc[4], sc[5], sc[6]
+        if sc[7] or sc[8] or m['composers'] or m['genres']:
+            ns.sequence_metadata.title, ns.sequence_metadata.artist = _str(sc[7]), _str(sc[8])
+            ns.sequence_metadata.composers.extend(_str(c) for c in m['composers'])
+            ns.sequence_metadata.genre.extend(_str(c) for c in m['genres'])
+        for r in m['instr']:
+            ii = ns.instrument_infos.add(); ii.instrument, ii.name = r[0], _str(r[1])
+        for r in m['parts']:
+            pi = ns.part_infos.add(); pi.part, pi.name = r[0], _str(r[1])
+        for r in m['groups']:
+            sg = ns.section_groups.add(); sg.num_times = r[0]
+            for sid in r[1:]:
+                sg.sections.add().section_id = sid
+    return ns
+
+
+def _meta_of(ns):
+    """Encode the remainder of a NoteSequence; the last element is 0 iff nothing else is left in it."""
+    from note_seq.protobuf import music_pb2
+    md = ns.sequence_metadata
+    out = [[_unstr(ns.id), _unstr(ns.filename), ns.reference_number, _unstr(ns.collection_name),
+            ns.source_info.source_type, ns.source_info.encoding_type, ns.source_info.parser,
+            _unstr(md.title), _unstr(md.artist)],
+           [_unstr(c) for c in md.composers], [_unstr(c) for c in md.genre],
+           [[i.instrument, _unstr(i.name)] for i in ns.instrument_infos],
+           [[i.part, _unstr(i.name)] for i in ns.part_infos],
+           [[g.num_times] + [x.section_id for x in g.sections] for g in ns.section_groups]]
+    c = music_pb2.NoteSequence()
+    c.CopyFrom(ns)
+    for f in ('id', 'filename', 'reference_number', 'collection_name', 'source_info', 'sequence_metadata',
+              'instrument_infos', 'part_infos', 'section_groups'):
+        c.ClearField(f)
+    return out + [nsio.seq_rest(c)]
+
+
+def _wire_meta(desc):
+    m = desc.get('xmeta')
+    if not m:
+        return [[0] * 9, [], [], [], [], []]
+    return [m['scalars'], m['composers'], m['genres'], m['instr'], m['parts'], m['groups']]
+
+
+def _gen_xmeta(rng):
+    if rng.random() < 0.15:
+        return None
+    def sc(hi):
+        return rng.choice([0, 0, rng.randint(1, hi)])
+    return {'scalars': [sc(5), sc(5), sc(9), sc(3), rng.choice([0, 1, 2]), rng.choice([0, 1, 3]),
+                        rng.choice([0, 2, 5]), sc(4), sc(4)],
+            'composers': [rng.randint(1, 4) for _ in range(rng.randint(0, 3))],
+            'genres': [rng.randint(1, 3) for _ in range(rng.randint(0, 2))],
+            'instr': [[rng.randint(0, 3), rng.randint(0, 4)] for _ in range(rng.randint(0, 2))],
+            'parts': [[rng.randint(0, 3), rng.randint(0, 4)] for _ in range(rng.randint(0, 2))],
+            'groups': [[rng.randint(0, 3)] + [rng.randint(0, 5) for _ in range(rng.randint(0, 2))]
+                       for _ in range(rng.randint(0, 2))]}
 
 
 def table_map(tbl, t):
@@ -165,8 +239,14 @@ def _gen_concat(rng):
             s = copy.deepcopy(base)
         else:
             s = _seq(rng, max_notes=5, hi_quarters=12, max_events=3)
-            if rng.random() < 0.1:                     # an empty piece of zero duration
+            r0 = rng.random()
+            if r0 < 0.08:                              # an empty piece of zero duration
                 s = nsio.gen_desc(rng, max_notes=0, with_events=False)
+            elif r0 < 0.2:                             # no notes, total_time 0, but events (at and after 0)
+                s = nsio.gen_desc(rng, max_notes=0, hi_quarters=6, max_events=2)
+                s['total'] = 0
+            s['meta'] = None
+            s['xmeta'] = _gen_xmeta(rng)
             base = s
         _maybe_quantized(rng, s, 0.04)
         seqs.append(s)
@@ -363,12 +443,12 @@ def impl(case):
             return ['OK', _canon(nsio.to_wire(r))]
         if op == 'concat':
             durs = None if a['durs'] is None else [nsio.t2f(d) for d in a['durs']]
-            r = sl.concatenate_sequences([nsio.to_proto(s) for s in a['seqs']], durs)
-            return ['OK', _canon(nsio.to_wire(r), drop_rest=True)]
+            r = sl.concatenate_sequences([_proto(s) for s in a['seqs']], durs)
+            return ['OK', _canon(nsio.to_wire(r), drop_rest=True), _meta_of(r)]
         if op == 'repeat':
             sd = None if a['sd'] is None else nsio.t2f(a['sd'])
             r = sl.repeat_sequence_to_duration(nsio.to_proto(a['seq']), nsio.t2f(a['d']), sd)
-            return ['OK', _canon(nsio.to_wire(r), drop_rest=True, drop_ccs=True)]
+            return ['OK', _canon(nsio.to_wire(r), drop_rest=True)]
         if op == 'adjust':
             md = None if a['md'] is None else nsio.t2f(a['md'])
             r, skipped = sl.adjust_notesequence_times(nsio.to_proto(a['seq']), _time_func(a['table']), md)
@@ -392,7 +472,7 @@ def model_input(case):
     if op == 'stretch':
         return [2, a['fn'], a['fd'], _wire(a['seq'])]
     if op == 'concat':
-        return [3, [_wire(s) for s in a['seqs']], a['durs'] or []]
+        return [3, [_wire(s) for s in a['seqs']], a['durs'] or [], [_wire_meta(s) for s in a['seqs']]]
     if op == 'repeat':
         return [4, _wire(a['seq']), a['d'], [] if a['sd'] is None else [a['sd']]]
     if op == 'adjust':
@@ -413,9 +493,10 @@ def model_output(case, m):
     if op in ('shift', 'stretch'):
         return ['OK', _canon(p)]
     if op == 'concat':
-        return ['OK', _canon(p, drop_rest=True)]
+        sc = p[1][0] + [0] * (9 - len(p[1][0]))
+        return ['OK', _canon(p[0], drop_rest=True), [sc] + p[1][1:] + [0]]
     if op == 'repeat':
-        return ['OK', _canon(p, drop_rest=True, drop_ccs=True)]
+        return ['OK', _canon(p, drop_rest=True)]
     if op == 'adjust':
         return ['OK', _canon(p[0]), p[1]]
     if op == 'rectify':
@@ -608,6 +689,25 @@ def _oracle_concat(a, io):
         return {'kind': 'concat-total-time-wrong', 'expected': last_end, 'got': wout[I_TOTAL]}
     if wout[I_SUB] != [0, 0]:
         return {'kind': 'concat-subsequence-info-not-cleared'}
+    # the rest of the message: last non-default scalar wins, repeated fields appended in piece order,
+    # composers / genres without repeats
+    ms = [_wire_meta(s) for s in seqs]
+    sc = [0] * 9
+    for m in ms:
+        sc = [y if y else x for x, y in zip(sc, m[0])]
+
+    def uniq(xs):
+        out = []
+        for x in xs:
+            if x not in out:
+                out.append(x)
+        return out
+    exp = [sc, uniq([c for m in ms for c in m[1]]), uniq([c for m in ms for c in m[2]]),
+           [r for m in ms for r in m[3]], [r for m in ms for r in m[4]], [r for m in ms for r in m[5]], 0]
+    names = ['scalars', 'composers', 'genres', 'instrument-infos', 'part-infos', 'section-groups', 'other-fields']
+    for nm, x, y in zip(names, exp, io[2]):
+        if x != y:
+            return {'kind': 'concat-metadata-%s-not-merged' % nm, 'expected': x, 'got': y}
     return None
 
 
@@ -630,6 +730,8 @@ def _oracle_repeat(a, io):
     if not ((n - 1) * dur < d <= n * dur):
         return {'kind': 'oracle-internal'}
     wout = io[1]
+    if wout[I_SUB] != [0, 0]:
+        return {'kind': 'repeat-subsequence-info-not-cleared', 'got': wout[I_SUB]}
     w = _wire(desc)
     exp = []
     for k in range(n):
@@ -652,6 +754,25 @@ def _oracle_repeat(a, io):
                 return {'kind': 'repeat-%s-in-force-changed' % LISTS[i], 'time': t}
         if any(r[0] >= d or r[0] < 0 for r in outsorted):
             return {'kind': 'repeat-%s-outside-window' % LISTS[i]}
+    # control changes: only the preserved (pedal) numbers survive; per (instrument, number) the value in force
+    # at every instant of [0, d) is that of the copies
+    from note_seq import sequences_lib as sl
+    pres = set(sl.DEFAULT_SUBSEQUENCE_PRESERVE_CONTROL_NUMBERS)
+    if set([64, 66, 67]) != pres:
+        return {'kind': 'preserved-control-numbers-changed', 'got': sorted(pres)}
+    if any(r[2] not in pres for r in wout[5]):
+        return {'kind': 'repeat-non-pedal-control-change-kept'}
+    if any(r[0] >= d or r[0] < 0 for r in wout[5]):
+        return {'kind': 'repeat-ccs-outside-window'}
+    allcc = [[r[0] + k * dur] + list(r[1:]) for k in range(n) for r in w[5] if r[2] in pres]
+    for key in set((r[4], r[2]) for r in allcc) | set((r[4], r[2]) for r in wout[5]):
+        a_ = sorted([r for r in allcc if (r[4], r[2]) == key], key=lambda r: r[0])
+        o_ = sorted([r for r in wout[5] if (r[4], r[2]) == key], key=lambda r: r[0])
+        if _ambiguous(a_):
+            continue
+        for t in sorted(set([r[0] for r in a_ if r[0] < d] + [0])):
+            if _in_force(a_, t) != _in_force(o_, t):
+                return {'kind': 'repeat-pedal-in-force-changed', 'key': list(key), 'time': t}
     return None
 
 
